@@ -223,8 +223,10 @@ def run(prop, tier, seed, known):
                 gref = [float(t) for t in range(gN)]
                 gest = sorted(set(gref[:1] + gref[-1:] + [t for t in gref[1:-1] if rng.random() < 0.7]
                                   + [rng.randint(0, gN - 2) + rng.choice([0.5, 0.5, 0.25, 65 / 128.0, 63 / 128.0, 0.125, 0.75]) for _ in range(rng.randint(1, 4))]))
-                nb_ = rng.choice([41, 21, 11])
+                nb_ = rng.choice([41, 21, 11, 40, 4, 2])
                 ig = guard('beat.information_gain', lambda: beat.information_gain(np.array(gref) + 6.0, np.array(gest) + 6.0, bins=nb_))
+                if ig is not None and not (np.isfinite(ig) and -1e-9 <= ig <= 1 + 1e-9):
+                    fails.append('beat.information_gain(bins=%d) = %r out of [0, 1] (ref 0..%d, est %s)' % (nb_, float(ig), gN - 1, gest))
                 if ig is not None and len(gest) > 1:
                     want_ig = (math.log2(nb_) - max(entropy_(gref, gest, nb_), entropy_(gest, gref, nb_))) / math.log2(nb_)
                     if abs(ig - want_ig) > 1e-9:
